@@ -5,7 +5,7 @@ set -u
 patch="$(readlink -f "$1")"; shift
 cd /repo || exit 2
 if ! git diff --quiet; then echo "/repo has uncommitted changes; refusing"; exit 2; fi
-if ! git apply --3way "$patch" 2>/dev/null && ! git apply "$patch"; then echo "PATCH-DOES-NOT-APPLY $patch"; git checkout -q -- . ; exit 2; fi
+if ! git apply "$patch" 2>/dev/null; then git reset -q --hard HEAD; if ! git apply --3way "$patch" 2>/dev/null || [ -n "$(git diff --name-only --diff-filter=U)" ]; then echo "PATCH-DOES-NOT-APPLY $patch"; git reset -q --hard HEAD; exit 2; fi; fi
 git reset -q 2>/dev/null
 trap 'cd /repo && git checkout -q -- . && git clean -fdq -- core macros bevy src tests 2>/dev/null' EXIT
 for p in "$@"; do
